@@ -42,7 +42,7 @@ MIS = "(fun h => map (fun m => (mi_step m, mi_what m)) (check_history ig fixed h
 
 
 def run_property(prop, tier, seed, prop_files, coq_targets, profile, monitor, n_quick, n_thorough,
-                 pair_restart=False, len_range=(4, 14), assumptions=None):
+                 pair_restart=False, len_range=(4, 14), assumptions=None, extra=None):
     res = Result(prop, tier, seed)
     work = Work(prop)
     try:
@@ -65,11 +65,29 @@ def run_property(prop, tier, seed, prop_files, coq_targets, profile, monitor, n_
         hists, mats, ks = [], [], []
         for _ in range(n):
             h = m4.gen_history(rnd, rnd.randint(*len_range), profile)
+            if (profile or {}).get("rollout_template") and rnd.random() < 0.5:
+                # a service with rollout targets and an allowlist-only split (percentage 0), then the random rest
+                name = rnd.choice(m4.NAMES[:3])
+                host = rnd.choice(m4.HOSTS)
+                pre = [{"op": "deploy", "name": name, "hosts": [host], "prefixes": [], "tls": False, "tls_redirect": False,
+                        "strip": True, "cert": "none", "pages": "none", "topts": 0,
+                        "targets": [{"name": b"ta:80", "healthy": True}, {"name": b"tb:80", "healthy": True}]},
+                       {"op": "rollout_deploy", "name": name, "targets": [{"name": b"tc:8080", "healthy": True}]},
+                       {"op": "rollout_set", "name": name, "pct": 0, "allow": [b"alice", b"carol"]}]
+                h = pre + [c for c in h if not (c.get("name") == name and c["op"] in ("remove", "rollout_stop", "rollout_set", "deploy"))][:6]
             mx = m4.matrix(rnd, h, 8)
             m = [mx for _ in h]
             if pair_restart:
                 k = rnd.randint(0, len(h))
-                h2 = h[:k] + [{"op": "restart"}] + h[k:]
+                restart = {"op": "restart"}
+                multi = [c for c in h[:k] if c["op"] == "deploy" and len(c["targets"]) >= 2 and all(t["healthy"] for t in c["targets"])]
+                if multi and k > 0 and rnd.random() < 0.6:
+                    # one target (not the last of its list) of a service deployed before the restart point fails one
+                    # probe and recovers: in the original run just before position k, in the other just after the restart
+                    tg = multi[-1]["targets"][0]["name"]
+                    h = h[:k - 1] + [dict(h[k - 1], flap_after=tg)] + h[k:]
+                    restart = {"op": "restart", "flap_after": tg}
+                h2 = h[:k] + [restart] + h[k:]
                 m2 = m[:k] + [mx] + m[k:]
                 hists += [h, h2]
                 mats += [m, m2]
@@ -113,6 +131,16 @@ def run_property(prop, tier, seed, prop_files, coq_targets, profile, monitor, n_
             "model/Seq.v is hand-written; tied to router.go/service.go/pause_controller.go/service_map.go by this run only",
             "health outcomes, certificate and error-page readability are inputs; Go runtime, net/http, encoding/json modelled not verified",
         ]
+        if extra:
+            x_ok, x_bad, x_out = extra(res, work, tier)
+            if not x_ok:
+                harness_ok = False
+                gout = x_out
+            elif x_bad:
+                res.violation("stress", {"property": prop, "what": "monitor false on a concurrent run of the real code",
+                                         "observed": x_bad[:3], "seed": seed, "tier": tier,
+                                         "replay": "go test -run TestVerifC05Race (harness/c05_race_test.go), real scheduler"})
+                return res.finish()
         mon_fail = [i for i, r in enumerate(results) if r and not r[1]]
         disagree = [i for i, r in enumerate(results) if r and r[0] and r[1]]
 
